@@ -187,6 +187,11 @@ def oracle(ctx):
     lattice = {b'src/n%02d/%s' % (i, l): ('link', b'../n%02d' % (i + 1)) for i in range(19) for l in (b'a', b'b', b'c')}
     lattice[b'src/n19/deep.container'] = unit
     lattice[b'src/top.container'] = unit
+    inst = lambda body: b'[Container]\nImage=localhost/i\n[Install]\n' + body
+    long_trees += [{b'src/web.container': inst(b'Alias=extra/web.service extra\n'), b'src/later.pod': b'[Pod]\n'},
+                   {b'src/a.container': inst(b'WantedBy=foo.target\n'), b'src/b.container': inst(b'Alias=foo.target.wants\nAlias=foo.target.wants/x\n')},
+                   {b'src/c.container': inst(b'Alias=c.service/x c.service sub sub/y sub\nWantedBy=sub\nRequiredBy=sub/z\n')},
+                   {b'src/t@.container': inst(b'DefaultInstance=a/b\nAlias=t@.service t@x.service\nWantedBy=w.target\n')}]
     long_trees += [lattice,
                    {b'src/a/x.container': unit, b'src/a/to-b': ('link', b'../b'), b'src/b/y.container': unit, b'src/b/to-a': ('link', b'../a')},
                    {b'src/sub/x.container': unit, b'src/sub/up': ('link', b'..'), b'src/sub/self': ('link', b'.'), b'src/gone': ('link', b'nowhere')},
